@@ -655,7 +655,11 @@ def remoteName (pub sig : List Char) : List Char := pub ++ '.' :: sig
 def validChar (c : Char) : Bool :=
   c.isAlphanum || c == '-' || c == '_' || c == '(' || c == ')'
 
-/-- `is_valid_object_name` -/
-def validName (n : List Char) : Bool := n ≠ [] && n.length ≤ 63 && n.all validChar
+/-- what the pattern `^[-_a-zA-Z0-9()]+$` looks at: `$` also matches before one trailing newline -/
+def nameBody (n : List Char) : List Char := if n.getLast? = some '\n' then n.dropLast else n
+
+/-- `is_valid_object_name`: at most 63 characters; one or more characters of the class, then the end of the string or
+a single trailing newline (`re.match` with `$`) -/
+def validName (n : List Char) : Bool := nameBody n ≠ [] && n.length ≤ 63 && (nameBody n).all validChar
 
 end QmiModel.PubSub
